@@ -64,9 +64,17 @@ func (bf *BanFile) Add(ip string, until *time.Time) error {
 		return fmt.Errorf("marshal yaml: %v", err)
 	}
 
-	err = os.WriteFile(filepath.Join(bf.filePath), out, 0644)
+	// Write to a temporary file and rename it into place: a crash must never leave a truncated ban list behind
+	// (an empty Banlist.yaml does not load, i.e. the server would not start again).
+	tempFilePath := filepath.Join(bf.filePath) + ".tmp"
+
+	err = os.WriteFile(tempFilePath, out, 0644)
 	if err != nil {
 		return fmt.Errorf("write file: %v", err)
+	}
+
+	if err := os.Rename(tempFilePath, bf.filePath); err != nil {
+		return fmt.Errorf("rename temporary file to final file: %v", err)
 	}
 
 	return nil
